@@ -80,6 +80,17 @@ CHECKS = {
    note="Lock release after the call is observed through the harness pager (lock/unlock events); the OS-level lock is C06's subject.",
    technique="Coq proof (early stop = firstn, by induction) + differential execution for structural stop positions",
    design="DESIGN.md section 6, C17"),
+ "C11": dict(
+   text="Coq: SQLite's comparison rules are written as a denotation into an ordered domain (Spec/Order.v: class order, numbers as exact dyadic rationals m*2^e plus the infinities with "
+        "IEEE-754 binary64 decoded arithmetically in Z, text by collation key, blobs bytewise) and proved a total preorder on all storable values (C11_refl, C11_total, C11_trans); "
+        "compare() of db/cmp.go computes it for every pair except integer-against-real (C11_compare_spec_partial); Equals / Search are its lexicographic lifting to keys with "
+        "ASC/DESC and per-column collations (C11_equals, C11_search, C11_equals_search). Every run: all ordered pairs of a 108-value boundary grid x collations against SQLite's own "
+        "DENSE_RANK() OVER (ORDER BY v COLLATE c) and the extracted model; random multi-column keys through Equals / Search.",
+   note="PARTIAL: the integer/real case of compare() (truncate, compare, then compare float64(i) with r) is modelled exactly and tested inside Coq on the boundary grid (C11_intreal_grid, a test) "
+        "and against SQLite on every run, but its equality with the exact dyadic comparison is not proved for all int64 x float64. Known finding: NOCASE with embedded NUL bytes. "
+        "Invalid UTF-8 under NOCASE (strings.Map substitutes U+FFFD) is outside the property's 'UTF-8 text'.",
+   technique="Coq proof (total preorder via denotation; lexicographic lifting) + exhaustive grid differential vs SQLite ranks",
+   design="DESIGN.md section 6, C11"),
 }
 
 NOT_YET = {}
